@@ -168,5 +168,11 @@ def run(ctx):
     check_shift_scale(ctx, wm)
     check_normalize(ctx, wm)
     check_trend(ctx, wm)
+    from .common import dt_function, dt_weaver, DT_RULE
+    ctx.rule('C14.5', DT_RULE)
+    n_ = dt_function(ctx, 'C14.5', PROC + 'trend', {'x': 'x', 'y': 'x'}, consts={'fun': Term('param', (Const('fun'),))})
+    n_ += dt_function(ctx, 'C14.5', PROC + 'linear_trend', {'x': 'x', 'y': 'x'})
+    n_ += dt_weaver(ctx, 'C14.5', wm, ['shift_x', 'shift_y', 'scale_x', 'scale_y', 'normalize_x', 'normalize_y', 'trend', 'linear_trend'])
+    ctx.floor('C14.5', n_, 1, 'in-place stores with a known buffer element type in the trend code')
     ctx.notes.append('NOT DECIDED: order preservation of normalise (needs min_val < max_val and Max > Min), additivity of trends as a numeric law.')
     ctx.trust('field axioms over the reals; Min/Max of an array as opaque reductions')
